@@ -90,7 +90,11 @@ Cfgs ==
            C("bridge", {"x1"}, {"ctx", "flow", "big"}, "-", 2, 1, "fixed"),      \* parent context cancelled while data flows; > 1 MiB
            C("tunnel", X2, {"peer", "ctx"}, "Starting", 0, 0, "fixed"),          \* Start racing with every kind of Close
            C("tunnel", X2, {"peer"}, "Starting", 0, 0, "casfirst"),              \* hypothetical: CAS before SetCtx
-           C("latch", {"c1", "c2", "c3"}, {"add"}, "-", 0, 0, "splitlatch") }    \* hypothetical: latch tested outside the lock
+           C("latch", {"c1", "c2", "c3"}, {"add"}, "-", 0, 0, "splitlatch"),     \* hypothetical: latch tested outside the lock
+           C("bridge", X2, {"tg", "eofA"}, "-", 1, 0, "fixed"),                  \* target connection arriving while the bridge closes
+           C("bridge", X2, {"tg"}, "-", 0, 0, "snapclose"),                      \* hypothetical: connections closed outside the locks
+           C("resmgr", {"d1", "d2"}, {"tw"}, "-", 0, 0, "fixed"),                \* DisposeAll x2 and DisposeWithTimeout
+           C("resmgr", {"d1"}, {"tw"}, "-", 0, 0, "unbuf") }                     \* hypothetical: unbuffered result channel
     [] Suite = "mcbig" ->         \* exhaustive, thorough tier
          { C("tunnel", X3, AllPaths, "Connected", 0, 0, "fixed"),
            C("tunnel", X2, AllPaths, "Connected", 0, 0, "asis"),
@@ -98,6 +102,8 @@ Cfgs ==
            C("tunnel", X3, {"peer", "ctx", "idle"}, "Starting", 0, 0, "fixed"),
            C("tunnel", X2, {"peer", "ctx"}, "Starting", 0, 0, "casfirst"),
            C("bridge", X2, {"ctx", "flow", "big", "eofA"}, "-", 2, 1, "fixed"),
+           C("bridge", X3, {"tg", "eofA", "ctx"}, "-", 1, 0, "fixed"),
+           C("resmgr", {"d1", "d2", "d3"}, {"tw"}, "-", 0, 0, "fixed"),
            C("bridge", X3, {"eofA", "eofB", "ctx"}, "-", 1, 1, "fixed"),
            C("bridge", X2, {"eofA", "eofB", "ctx"}, "-", 1, 1, "asis"),
            C("bridge", X2, {"eofA", "eofB", "ctx"}, "-", 1, 1, "report") }
@@ -111,7 +117,9 @@ Cfgs ==
            C("bridge", {"x1"}, {"eofA"}, "-", 1, 0, "fixed"),
            C("bridge", {"x1"}, {"eofA"}, "-", 1, 0, "asis"),
            C("bridge", {"x1"}, {"ctx", "flow", "big"}, "-", 2, 0, "fixed"),
-           C("tunnel", {"x1"}, {"peer"}, "Starting", 0, 0, "fixed") }      \* (no manager shutdown: it would cancel whatever Start left behind)
+           C("tunnel", {"x1"}, {"peer"}, "Starting", 0, 0, "fixed"),       \* (no manager shutdown: it would cancel whatever Start left behind)
+           C("bridge", X2, {"tg"}, "-", 0, 0, "fixed"),
+           C("resmgr", {"d1", "d2"}, {"tw"}, "-", 0, 0, "fixed") }
     [] Suite = "genbig" ->        \* behaviour generation, thorough tier (in addition to "gen")
          { C("latch", {"c1", "c2", "c3"}, {"add", "op", "io"}, "-", 0, 0, "fixed"),
            C("tunnel", X2, {"peer", "idle"}, "Starting", 0, 0, "fixed"),
@@ -125,7 +133,9 @@ Cfgs ==
            C("bridge", {"x1"}, {}, "-", 1, 0, "asis") }
     [] Suite = "show2" ->         \* the two hypothetical designs: double run of every handler / monitors left behind
          { C("latch", {"c1", "c2"}, {}, "-", 0, 0, "splitlatch"),
-           C("tunnel", {"x1"}, {}, "Starting", 0, 0, "casfirst") }
+           C("tunnel", {"x1"}, {}, "Starting", 0, 0, "casfirst"),
+           C("bridge", X2, {"tg"}, "-", 0, 0, "snapclose"),
+           C("resmgr", {"d1"}, {"tw"}, "-", 0, 0, "unbuf") }
 
 VARIABLES cf,                                                   \* the configuration of this behaviour (never changes)
           pc, liveG, ctxDone, retd, called,
@@ -136,6 +146,8 @@ VARIABLES cf,                                                   \* the configura
           dev_overlap, dev_lateflush,                         \* bridge scene
           torn, panicked, dev_tornio, dev_nilfwd,             \* I/O in flight while closing (latch: stream reader; bridge: copier start)
           ctxSet, dev_split, dev_ctxlate,                     \* context installed (tunnel Start); hypothetical deviations (see designs)
+          clock, fields, owned, mustc, cclosed, csnap, ready, dev_snap,   \* bridge: the connections it was handed and their Close
+          disposing, regs, todo, dev_stuck,                   \* scene "resmgr"
           hist
 
 common == <<pc, liveG, ctxDone, retd, called, closed, lock, ran>>
@@ -144,8 +156,10 @@ tvars  == <<tstate, cb, unreg, notif, tconns, ioEnded, fell>>
 bvars  == <<bconns, once, batch, sent, ctr, last, moved, stored, reported, rloc, rctx, rmu, dev_overlap, dev_lateflush>>
 xvars  == <<torn, panicked, dev_tornio, dev_nilfwd>>
 yvars  == <<ctxSet, dev_split, dev_ctxlate>>
-vars   == <<cf, common, lvars, tvars, bvars, xvars, yvars, hist>>
-view   == <<cf, common, lvars, tvars, bvars, xvars, yvars>>
+cvars  == <<clock, fields, owned, mustc, cclosed, csnap, ready, dev_snap>>
+rvars  == <<disposing, regs, todo, dev_stuck>>
+vars   == <<cf, common, lvars, tvars, bvars, xvars, yvars, cvars, rvars, hist>>
+view   == <<cf, common, lvars, tvars, bvars, xvars, yvars, cvars, rvars>>
 
 Scene      == cf.scene
 Closers    == cf.closers
@@ -159,15 +173,19 @@ FixSnap    == cf.design \notin {"asis", "report"}   \* Bridge.Start hands both c
 \* in the model so that TLC exhibits what the schedule-forcing and hammering parts of the driver are looking for:
 SplitLatch == cf.design = "splitlatch" \* Dispose.Close tests `closed` BEFORE taking currentLock and sets it after, without re-check
 CasFirst   == cf.design = "casfirst"   \* Tunnel.Start does CAS(Connecting -> Connected) BEFORE SetCtx(manager context)
+SnapClose  == cf.design = "snapclose"  \* Bridge.Close snapshots its connections under RLock, closes them outside the locks, clears the fields last
+Unbuf      == cf.design = "unbuf"      \* ResourceManager.DisposeWithTimeout hands the result over an UNBUFFERED channel
 
 Copiers == {"cpA", "cpB"}
 Procs == CASE Scene = "latch"  -> Closers \cup (Paths \cap {"add", "op", "io"})
            [] Scene = "tunnel" -> Closers \cup (Paths \cap {"idle", "peer", "ctx"})
                                           \cup (IF StartState \in {"Connected", "Starting"} THEN {"copy"} ELSE {})
                                           \cup (IF StartState = "Starting" THEN {"start"} ELSE {})
-           [] Scene = "bridge" -> Closers \cup {"st", "fin"} \cup Copiers
+           [] Scene = "bridge" -> Closers \cup {"st", "fin"} \cup Copiers \cup (Paths \cap {"tg"})
+           [] Scene = "resmgr" -> Closers \cup (IF "tw" \in Paths THEN {"tw", "hlp"} ELSE {})
 
-HandlerIds == {"h1", "h2", "h3", "onClose", "cleanup"}
+HandlerIds == {"h1", "h2", "h3", "onClose", "cleanup", "r1", "r2"}
+Conns == {"s", "t", "t2"}        \* source connection, target connection, a target connection arriving later (SetTargetConnection)
 
 Out(h) == IF Emit THEN PrintT("BEH " \o ToJson([scene |-> cf.scene, start |-> cf.start, design |-> cf.design, steps |-> h])) ELSE TRUE
 \* after the step, is p about to wait for a lock somebody else holds?
@@ -176,18 +194,21 @@ Waits(p) == /\ p \in Procs
                \/ pc'[p] = "rbegin" /\ FixReport /\ rmu' \notin {"none", p}
                \/ pc'[p] = "once" /\ once' \notin {"free", "done"}
                \/ pc'[p] = "opchk" /\ lock' # "none"
+               \/ pc'[p] = "xcall" /\ ~SnapClose /\ clock' # "none"
 Returns(p) == p \in Procs /\ pc[p] \notin {"ret", "gone"} /\ pc'[p] \in {"ret", "gone"}     \* p's call returns / p ends in this step
-LogY(p, a, silent) == /\ hist' = Append(hist, [p |-> p, a |-> a, s |-> silent, w |-> Waits(p), r |-> Returns(p)])
+LogZ(p, a, silent) == /\ hist' = Append(hist, [p |-> p, a |-> a, s |-> silent, w |-> Waits(p), r |-> Returns(p)])
                       /\ Out(hist') /\ UNCHANGED cf
-LogX(p, a, silent) == LogY(p, a, silent) /\ UNCHANGED yvars
-Log(p, a, silent) == LogX(p, a, silent) /\ UNCHANGED xvars
+LogY(p, a, silent) == UNCHANGED <<cvars, rvars>> /\ LogZ(p, a, silent)
+LogX(p, a, silent) == UNCHANGED yvars /\ LogY(p, a, silent)
+Log(p, a, silent) == UNCHANGED xvars /\ LogX(p, a, silent)
 
 Init ==
   /\ cf \in Cfgs
-  /\ pc = [p \in Procs |-> IF p \in Copiers THEN "none" ELSE "idle"]
+  /\ pc = [p \in Procs |-> IF p \in Copiers \cup {"hlp"} THEN "none" ELSE "idle"]
   /\ liveG = CASE Scene = "latch"  -> {"w"}
                [] Scene = "tunnel" -> IF StartState = "Connected" THEN {"m1", "m2", "copy"} ELSE {}
                [] Scene = "bridge" -> {"per"}
+               [] Scene = "resmgr" -> {}
   /\ ctxDone = FALSE /\ retd = {} /\ called = FALSE
   /\ closed = FALSE /\ lock = "none" /\ ran = [h \in HandlerIds |-> 0]
   /\ handlers = IF Scene = "latch" THEN <<"h1", "h2">> ELSE <<>>
@@ -200,6 +221,9 @@ Init ==
   /\ rmu = "none" /\ dev_overlap = FALSE /\ dev_lateflush = FALSE
   /\ torn = FALSE /\ panicked = {} /\ dev_tornio = FALSE /\ dev_nilfwd = FALSE
   /\ ctxSet = (StartState = "Connected") /\ dev_split = FALSE /\ dev_ctxlate = FALSE
+  /\ clock = "none" /\ fields = (IF "tg" \in Paths THEN {"s"} ELSE {"s", "t"}) /\ owned = fields /\ mustc = {}
+  /\ cclosed = [c \in Conns |-> 0] /\ csnap = [p \in Procs |-> <<>>] /\ ready = ("tg" \notin Paths) /\ dev_snap = FALSE
+  /\ disposing = FALSE /\ regs = (IF Scene = "resmgr" THEN {"r1", "r2"} ELSE {}) /\ todo = [p \in Procs |-> <<>>] /\ dev_stuck = FALSE
   /\ hist = <<>>
 
 Ret(p) == retd' = retd \cup {p}
@@ -415,11 +439,46 @@ AfterReport(p) ==
     [] rctx[p] = "final"   -> /\ pc' = [pc EXCEPT ![p] = "life"]            \* Start returns
                               /\ UNCHANGED <<lock, once, retd, liveG>>
 
-XCall(p) ==   \* Bridge.Close(): forwarders, tunnel connections, net connections, streams are closed first
-  /\ Scene = "bridge" /\ p \in Closers \cup {"st"} /\ pc[p] = IF p = "st" THEN "life" ELSE "idle"
-  /\ bconns' = "closed" /\ pc' = [pc EXCEPT ![p] = "latch"] /\ called' = TRUE
+\* Bridge.Close(): under sourceConnMu / tunnelConnMu the forwarders are closed (the connections stop delivering: bconns),
+\* then every tunnel connection the bridge holds is closed and its field cleared - one XCloseConn step per connection,
+\* the lock (clock) held throughout, so a second Close or a SetTargetConnection waits.  Design "snapclose"
+\* (hypothetical): references are snapshot under RLock, closed outside the locks and the fields cleared afterwards -
+\* two overlapping Close calls close every connection twice, and a target connection stored meanwhile is wiped
+\* without ever being closed (deviation dev_snap).
+FieldSeq == SelectSeq(<<"s", "t", "t2">>, LAMBDA x : x \in fields)
+XCall(p) ==
+  /\ Scene = "bridge" /\ p \in Closers \cup {"st"} \cup Copiers
+  /\ pc[p] = (IF p = "st" THEN "life" ELSE IF p \in Copiers THEN "xcall" ELSE "idle")
+  /\ SnapClose \/ clock = "none"
+  /\ csnap' = [csnap EXCEPT ![p] = FieldSeq]
+  /\ dev_snap' = (dev_snap \/ (SnapClose /\ \E q \in Procs \ {p} : csnap[q] # <<>>))
+  /\ IF FieldSeq = <<>>
+     THEN clock' = clock /\ pc' = [pc EXCEPT ![p] = "latch"]
+     ELSE clock' = (IF SnapClose THEN clock ELSE p) /\ pc' = [pc EXCEPT ![p] = "cclose"]
+  /\ bconns' = "closed" /\ called' = TRUE /\ mustc' = owned
   /\ UNCHANGED <<liveG, ctxDone, retd, closed, lock, ran, lvars, tvars, once, batch, sent, ctr, last, moved, stored, reported, rloc, rctx, rmu, dev_overlap, dev_lateflush>>
-  /\ Log(p, "Close", FALSE)
+  /\ UNCHANGED <<xvars, yvars, rvars, fields, owned, cclosed, ready>>
+  /\ LogZ(p, "Close", p \in Copiers)
+
+XCloseConn(p) ==   \* TunnelConnection.Close() of the next connection; after the last one the fields are cleared
+  /\ Scene = "bridge" /\ pc[p] = "cclose"
+  /\ LET c == Head(csnap[p]) IN
+     /\ cclosed' = [cclosed EXCEPT ![c] = @ + 1]
+     /\ csnap' = [csnap EXCEPT ![p] = Tail(@)]
+     /\ IF Len(csnap[p]) = 1
+        THEN /\ fields' = {} /\ clock' = (IF clock = p THEN "none" ELSE clock) /\ pc' = [pc EXCEPT ![p] = "latch"]
+        ELSE /\ UNCHANGED <<fields, clock, pc>>
+     /\ UNCHANGED <<liveG, ctxDone, retd, called, closed, lock, ran, lvars, tvars, bvars, xvars, yvars, rvars, owned, mustc, ready, dev_snap>>
+     /\ LogZ(p, "CloseConn:" \o c, FALSE)
+
+TgSet ==      \* SetTargetConnection: the target client's tunnel connection arrives (possibly while the bridge is closing)
+  /\ Scene = "bridge" /\ "tg" \in Procs /\ pc["tg"] = "idle"
+  /\ SnapClose \/ clock = "none"
+  /\ fields' = fields \cup {"t2"} /\ owned' = owned \cup {"t2"} /\ ready' = TRUE
+  /\ dev_snap' = (dev_snap \/ (SnapClose /\ \E q \in Procs : csnap[q] # <<>>))
+  /\ pc' = [pc EXCEPT !["tg"] = "ret"]
+  /\ UNCHANGED <<liveG, ctxDone, retd, called, closed, lock, ran, lvars, tvars, bvars, xvars, yvars, rvars, clock, mustc, cclosed, csnap>>
+  /\ LogZ("tg", "SetTarget", FALSE)
 
 XLatch(p) ==  \* ManagerBase.Close -> Dispose.Close: the latch; the winner cancels the context and enters cleanup()
   /\ Scene = "bridge" /\ pc[p] = "latch" /\ lock = "none"
@@ -483,7 +542,7 @@ PerExit ==    \* ... and ends when that report is done
   /\ Log("per", "Exit", TRUE)
 
 StStart ==    \* Start(): target ready; two copiers are spawned (or, forwarders gone / context done: wait for ctx.Done and return)
-  /\ Scene = "bridge" /\ pc["st"] = "idle"
+  /\ Scene = "bridge" /\ pc["st"] = "idle" /\ ready
   /\ IF bconns = "open"
      THEN /\ pc' = [pc EXCEPT !["st"] = "wg", !["cpA"] = "born", !["cpB"] = "born"]
           /\ liveG' = liveG \cup Copiers
@@ -544,9 +603,9 @@ CFlush(c) ==  \* CopyWithControl returns: counter.Add(batchCounter)
 COnce(c) ==   \* deferred closeBridge(): closeOnce.Do(b.Close) - the first copier closes, the other waits for it
   /\ Scene = "bridge" /\ c \in Copiers /\ pc[c] = "once" /\ once \in {"free", "done"}
   /\ IF once = "free"
-     THEN /\ once' = c /\ bconns' = "closed" /\ pc' = [pc EXCEPT ![c] = "latch"] /\ liveG' = liveG
-     ELSE /\ once' = once /\ bconns' = bconns /\ pc' = [pc EXCEPT ![c] = "gone"] /\ liveG' = liveG \ {c}
-  /\ UNCHANGED <<ctxDone, retd, called, closed, lock, ran, lvars, tvars, batch, sent, ctr, last, moved, stored, reported, rloc, rctx, rmu, dev_overlap, dev_lateflush>>
+     THEN /\ once' = c /\ pc' = [pc EXCEPT ![c] = "xcall"] /\ liveG' = liveG        \* b.Close() inline: XCall(c) next
+     ELSE /\ once' = once /\ pc' = [pc EXCEPT ![c] = "gone"] /\ liveG' = liveG \ {c}
+  /\ UNCHANGED <<ctxDone, retd, called, closed, lock, ran, lvars, tvars, bconns, batch, sent, ctr, last, moved, stored, reported, rloc, rctx, rmu, dev_overlap, dev_lateflush>>
   /\ Log(c, "Once", TRUE)
 
 StWake ==     \* wg.Wait() returns; repaired: one more report now that both copiers have flushed
@@ -563,13 +622,72 @@ BCtx ==       \* the parent context is cancelled (server shutting down) before a
   /\ UNCHANGED <<pc, liveG, retd, called, closed, lock, ran, lvars, tvars, bvars>>
   /\ Log("env", "Cancel", FALSE)
 
+\* =============================== scene "resmgr" =============================================
+\* internal/core/dispose/manager.go  ResourceManager.DisposeAll: under mu, return if a disposal is in progress or nothing
+\* is registered, else take every resource and clear the registry; outside the lock dispose them in reverse
+\* registration order (r2, r1); finally disposing = false.  DisposeWithTimeout runs DisposeAll in a helper goroutine
+\* ("hlp") and waits for its result or the timeout; the result channel has room for one value, so a helper that
+\* finishes after the timeout still gets rid of its result and ends.  Design "unbuf" (hypothetical): unbuffered
+\* channel - after a timeout nobody receives and the helper stays blocked on its send for ever (deviation dev_stuck).
+RCall(p) ==
+  /\ Scene = "resmgr" /\ p \in Closers \cup {"hlp"} /\ p \in Procs /\ pc[p] = "idle"
+  /\ called' = TRUE
+  /\ IF disposing \/ regs = {}
+     THEN /\ pc' = [pc EXCEPT ![p] = IF p = "hlp" THEN "send" ELSE "ret"]
+          /\ retd' = (IF p = "hlp" THEN retd ELSE retd \cup {p})
+          /\ UNCHANGED <<disposing, regs, todo>>
+     ELSE /\ disposing' = TRUE /\ regs' = {} /\ todo' = [todo EXCEPT ![p] = <<"r2", "r1">>]
+          /\ pc' = [pc EXCEPT ![p] = "disp"] /\ retd' = retd
+  /\ UNCHANGED <<liveG, ctxDone, closed, lock, ran, lvars, tvars, bvars, xvars, yvars, cvars, dev_stuck>>
+  /\ LogZ(p, "Call", p = "hlp")
+
+RDisp(p) ==   \* resource.Dispose() of the next resource
+  /\ Scene = "resmgr" /\ pc[p] = "disp"
+  /\ ran' = [ran EXCEPT ![Head(todo[p])] = @ + 1]
+  /\ todo' = [todo EXCEPT ![p] = Tail(@)]
+  /\ IF Len(todo[p]) = 1
+     THEN /\ disposing' = FALSE
+          /\ pc' = [pc EXCEPT ![p] = IF p = "hlp" THEN "send" ELSE "ret"]
+          /\ retd' = (IF p = "hlp" THEN retd ELSE retd \cup {p})
+     ELSE UNCHANGED <<disposing, pc, retd>>
+  /\ UNCHANGED <<liveG, ctxDone, called, closed, lock, lvars, tvars, bvars, xvars, yvars, cvars, regs, dev_stuck>>
+  /\ LogZ(p, "Disp:" \o Head(todo[p]), FALSE)
+
+TwCall ==     \* DisposeWithTimeout: go func() { resultChan <- rm.DisposeAll() }(); select { result / timeout }
+  /\ Scene = "resmgr" /\ "tw" \in Procs /\ pc["tw"] = "idle"
+  /\ pc' = [pc EXCEPT !["tw"] = "wait", !["hlp"] = "idle"] /\ liveG' = liveG \cup {"hlp"}
+  /\ UNCHANGED <<ctxDone, retd, called, closed, lock, ran, lvars, tvars, bvars, xvars, yvars, cvars, rvars>>
+  /\ LogZ("tw", "TwCall", FALSE)
+
+TwRecv ==     \* the helper's result arrives in time
+  /\ Scene = "resmgr" /\ "tw" \in Procs /\ pc["tw"] = "wait" /\ pc["hlp"] = "send"
+  /\ pc' = [pc EXCEPT !["tw"] = "ret", !["hlp"] = "gone"] /\ liveG' = liveG \ {"hlp"} /\ retd' = retd \cup {"tw"}
+  /\ UNCHANGED <<ctxDone, called, closed, lock, ran, lvars, tvars, bvars, xvars, yvars, cvars, rvars>>
+  /\ LogZ("tw", "Recv", TRUE)
+
+TwTimeout ==  \* the timeout fires first: DisposeWithTimeout returns the timeout error
+  /\ Scene = "resmgr" /\ "tw" \in Procs /\ pc["tw"] = "wait"
+  /\ pc' = [pc EXCEPT !["tw"] = "ret"] /\ retd' = retd \cup {"tw"}
+  /\ UNCHANGED <<liveG, ctxDone, called, closed, lock, ran, lvars, tvars, bvars, xvars, yvars, cvars, rvars>>
+  /\ LogZ("tw", "Timeout", FALSE)
+
+HSend ==      \* the helper delivers its result after the caller has gone
+  /\ Scene = "resmgr" /\ "hlp" \in Procs /\ pc["hlp"] = "send" /\ pc["tw"] = "ret"
+  /\ IF Unbuf
+     THEN pc' = [pc EXCEPT !["hlp"] = "stuck"] /\ dev_stuck' = TRUE /\ liveG' = liveG
+     ELSE pc' = [pc EXCEPT !["hlp"] = "gone"] /\ dev_stuck' = dev_stuck /\ liveG' = liveG \ {"hlp"}
+  /\ UNCHANGED <<ctxDone, retd, called, closed, lock, ran, lvars, tvars, bvars, xvars, yvars, cvars, disposing, regs, todo>>
+  /\ LogZ("hlp", "Send", TRUE)
+
 \* ==============================================================================================
 Next == \/ \E p \in Closers : LCall(p) \/ LLatch(p) \/ LLatchLoad(p) \/ LLatchWait(p) \/ LLatchStore(p) \/ LRun(p)
         \/ LAdd \/ LOpCall \/ LOpCheck \/ IoCall \/ IoNext \/ IoEnd
         \/ \E g \in liveG : GExit(g)
         \/ \E p \in Procs : TLoad(p) \/ TCas(p) \/ TUnreg(p) \/ TCb(p)
         \/ TEof \/ StCall \/ StSetCtx \/ StCas \/ StSpawn
-        \/ \E p \in Procs : XCall(p) \/ XLatch(p) \/ RBegin(p) \/ RGet(p) \/ RUpd(p) \/ RSto(p)
+        \/ \E p \in Procs : RCall(p) \/ RDisp(p)
+        \/ TwCall \/ TwRecv \/ TwTimeout \/ HSend \/ TgSet
+        \/ \E p \in Procs : XCall(p) \/ XCloseConn(p) \/ XLatch(p) \/ RBegin(p) \/ RGet(p) \/ RUpd(p) \/ RSto(p)
         \/ FBegin \/ PerExit \/ StStart \/ StCtx \/ StWake \/ BCtx
         \/ \E c \in Copiers : CBorn(c) \/ CData(c) \/ CDataBig(c) \/ CCtx(c) \/ CEnd(c) \/ CFlush(c) \/ COnce(c)
 Spec == Init /\ [][Next]_vars
@@ -577,7 +695,7 @@ Spec == Init /\ [][Next]_vars
 \* ---- properties (C16) -----------------------------------------------------------------------
 TypeOK == /\ \A h \in HandlerIds : ran[h] \in 0..8
           /\ cb \in 0..8 /\ unreg \in 0..8 /\ notif \in 0..8
-          /\ liveG \subseteq {"w", "m1", "m2", "copy", "per", "fin", "cpA", "cpB"}
+          /\ liveG \subseteq {"w", "m1", "m2", "copy", "per", "fin", "cpA", "cpB", "hlp"}
 
 \* (1) every clean-up action / close callback runs at most once, always
 AtMostOnce == /\ \A h \in HandlerIds : ran[h] <= 1
@@ -585,8 +703,9 @@ AtMostOnce == /\ \A h \in HandlerIds : ran[h] <= 1
 \* (2) ... and exactly once when a Close has returned (latch: handlers registered before any Close was called;
 \*     bridge: the clean-up handler).  Tunnel.Close returns early to a closer that finds Closing, so for the
 \*     tunnel the demand is made when every initiator has returned.
-Initiated == \E p \in Procs : pc[p] # "idle" /\ p \notin {"add", "op", "io", "start"}
-AllRet == \A p \in Procs : \/ pc[p] \in {"ret", "gone"}
+Initiated == \E p \in Procs : pc[p] \notin {"idle", "none"} /\ p \notin {"add", "op", "io", "start", "tg"}
+AllRet == \A p \in Procs : \/ pc[p] \in {"ret", "gone", "stuck"}
+                            \/ (p = "hlp" /\ pc[p] = "none" /\ pc["tw"] = "ret")
                             \/ (Scene = "bridge" /\ p = "fin" /\ ~ctxDone)
                             \/ (Scene = "bridge" /\ p \in Copiers /\ pc[p] = "none" /\ pc["st"] = "ret")
                             \/ (Scene = "tunnel" /\ p = "copy" /\ "copy" \notin liveG /\ pc[p] = "idle"
@@ -595,6 +714,10 @@ ExactlyOnce ==
   CASE Scene = "latch"  -> (retd # {}) => \A h \in must : ran[h] = 1
     [] Scene = "bridge" -> (retd # {}) => ran["cleanup"] = 1
     [] Scene = "tunnel" -> (AllRet /\ Initiated) => (cb = 1 /\ unreg = 1)
+    [] Scene = "resmgr" -> (AllRet /\ Initiated) => (ran["r1"] = 1 /\ ran["r2"] = 1)
+\* (2b) every connection the bridge was handed before the last Close call is closed exactly once, never twice
+ConnOnce == /\ \A c \in Conns : cclosed[c] <= 1
+            /\ (Scene = "bridge" /\ AllRet) => \A c \in mustc : cclosed[c] = 1
 \* (3) traffic totals are reported once: never more than was moved, and all of it when everything has ended
 NoOverReport == reported <= moved
 TrafficExact == (Scene = "bridge" /\ AllRet /\ closed) => reported = moved
@@ -609,7 +732,8 @@ LeakFree == (AllRet /\ Initiated) => \A g \in liveG : CanExit(g)
 \* What is checked: the property, or - in a configuration of the code as written - a listed deviation.
 InvAtMostOnce  == AtMostOnce \/ (~FixCas /\ fell) \/ (SplitLatch /\ dev_split)
 InvExactlyOnce == ExactlyOnce \/ (~FixCas /\ fell) \/ (SplitLatch /\ dev_split)
-InvLeakFree    == LeakFree \/ (CasFirst /\ dev_ctxlate)
+InvLeakFree    == LeakFree \/ (CasFirst /\ dev_ctxlate) \/ (Unbuf /\ dev_stuck)
+InvConnOnce    == ConnOnce \/ (SnapClose /\ dev_snap)
 InvNoOver      == NoOverReport \/ (~FixReport /\ dev_overlap)
 InvNoPanic     == \A p \in panicked : (p = "io" /\ dev_tornio) \/ (p \in Copiers /\ ~FixSnap /\ dev_nilfwd)
 NoPanic        == panicked = {}
